@@ -1100,6 +1100,15 @@ class PathEngine:
         """elements of the iterated collection when it is a tuple / list display of tuple displays bound to a local
         of this function (at most 12 rows), else None"""
         it = node.info["iter"]
+        if isinstance(it, ast.Call) and isinstance(it.func, ast.Name) and it.func.id == "range" and len(it.args) == 1 and not it.keywords and self._idp:
+            # inside an inlined helper: `for _ in range(count)` with the count known at this call (a default of 1, say)
+            try:
+                n_t = self.sym(it.args[0], env, store, cfg)
+            except AnalysisError:
+                n_t = None
+            if isinstance(n_t, tuple) and n_t[0] == "const" and isinstance(n_t[1], int) and not isinstance(n_t[1], bool) and 0 < n_t[1] <= 4:
+                return [("const", i) for i in range(n_t[1])]
+            return None
         if not isinstance(it, ast.Name):
             return None
         if it.id in env:
@@ -1376,16 +1385,18 @@ class PathEngine:
         if raises is not None:
             for kind in raises(ev, cfg):
                 raise_to(kind, None, items=items2 + [("ev", self._ev(cfg, "exc", node, value=kind, label=label))])
+        # (one repository callee - possibly next to the unnamed candidate a `d.get(k)`-typed receiver adds, see `tb`)
+        ti = t0 if len(targets) == 1 else (tb if tb is not None and tb.kind == "repo" else None)
         if (
             self.inline is not None
-            and len(targets) == 1
-            and t0.kind == "repo"
-            and t0.func is not None
+            and ti is not None
+            and ti.kind == "repo"
+            and ti.func is not None
             and len(self._idp) < self.max_inline_depth
-            and self.inline(t0.func)
-            and not isinstance(t0.func.node, ast.Lambda)
+            and self.inline(ti.func)
+            and not isinstance(ti.func.node, ast.Lambda)
         ):
-            self._inline(cfg, node, t0, call, recv, args, kwargs, env, store, items2, go, raise_to, raises)
+            self._inline(cfg, node, ti, call, recv, args, kwargs, env, store, items2, go, raise_to, raises)
             return
         if targets and all(t.kind == "repo" and t.func is not None and getattr(t.func.node, "returns", None) is not None and ast.unparse(t.func.node.returns).endswith("NoReturn") for t in targets):
             # the callee never returns normally
